@@ -250,12 +250,15 @@ impl<const N: u32> From<&Q32E2> for PxE2<{ N }> {
             if reg_a < N {
                 if reg_a + 4 <= N {
                     bit_n_plus_one = ((frac64_a >> (shift + 31 - N)) & 0x1) != 0;
-                    if (frac64_a << (33 - shift + N)) != 0 {
+                    if (frac64_a << (33 + N - shift)) != 0 {
                         bits_more = true;
                     }
                 } else {
                     if reg_a == (N - 2) {
                         bit_n_plus_one = (exp_a & 0x2) != 0;
+                        if (exp_a & 0x1) != 0 {
+                            bits_more = true;
+                        }
                         exp_a = 0;
                     } else if reg_a == (N - 3) {
                         bit_n_plus_one = (exp_a & 0x1) != 0;
@@ -264,6 +267,7 @@ impl<const N: u32> From<&Q32E2> for PxE2<{ N }> {
                     }
                     if frac64_a > 0 {
                         frac_a = 0;
+                        bits_more = true;
                     }
                 }
             } else {
